@@ -3,7 +3,12 @@
 // that does not fire here would pass vacuously forever.
 package posex
 
-import "sync/atomic"
+import (
+	"hash"
+	"sync/atomic"
+
+	multihash "ipnicheck/testdata/posex/go-multihash"
+)
 
 type readOnly struct {
 	m map[string]*int
@@ -32,4 +37,9 @@ func (c *cache) fresh(k string, v *int) {
 	u := make(map[string]*int)
 	u[k] = v
 	c.read.Store(&readOnly{u: u})
+}
+
+// registersHasher replaces a hash function in the (stand-in) process-wide registry.
+func registersHasher() {
+	multihash.Register(0x56, func() hash.Hash { return nil })
 }
